@@ -67,7 +67,7 @@ def programs(tier: str):
                     yield {"k": 2, "end": "normal", "feature": "plain", "created": created, "place": place, "mode": mode, "source_form": form}
     # LONG streams: 5..17 (33) items, plain / recording / nested-scope generators, every place;
     # full consumption, break / aclose / cancel at the first, a middle and the last item
-    for k in (5, 6, 7, 9, 17) if tier == "quick" else (5, 6, 7, 8, 9, 12, 17, 33):
+    for k in (5, 6, 7, 9, 17, 100, 128) if tier == "quick" else (5, 6, 7, 8, 9, 12, 17, 33, 100, 128, 257):
         for end in ("normal", "error"):
             for feature in ("plain", "record", "scope"):
                 if feature not in FEATURES:
@@ -320,6 +320,7 @@ def execute(program, ch: Chooser) -> Result:  # noqa: C901, PLR0912, PLR0915
     got_items: list = []
     outcome_box: dict = {}
     completions: dict[str, int] = {}
+    own_all: dict[str, list] = {}
     metrics_box: dict = {}
     records_box: dict = {}
     spawned: list = []
@@ -478,6 +479,10 @@ def execute(program, ch: Chooser) -> Result:  # noqa: C901, PLR0912, PLR0915
             own = m.read(StreamMetric)
             merged = [x for x in m.metrics(merge=lambda cur, got_: got_) if isinstance(x, StreamMetric)]
             records_box[name] = {"own": None if own is None else own.n, "merged": [x.n for x in merged]}
+            try:
+                own_all[name] = [type(x).__name__ for x in m.metrics()]
+            except Exception as exc:  # noqa: BLE001
+                own_all[name] = [f"metrics() raised {type(exc).__name__}"]
 
         return record
 
@@ -615,6 +620,12 @@ def execute(program, ch: Chooser) -> Result:  # noqa: C901, PLR0912, PLR0915
             viols.append(
                 viol("d-consumer-scope-completes", f"{mode[0]}/{placement}", "consumer completion fired once", completions.get("consumer", 0))
             )
+        # the creating / consuming / enclosing scopes never record anything themselves: whatever the
+        # stream machinery or the generator records belongs to the stream's own scope
+        for name, own_types in sorted(own_all.items()):
+            if own_types:
+                viols.append(viol("c-consumer-intact-metrics" if name == "consumer" or (name == "creator" and place == "same") else "b-records-in-stream-scope", f"foreign-record-in-{name}/{placement}", "no metric of its own", own_types[:3], items=k))
+                break
         for name, m in metrics_box.items():
             if not m.is_completed and mode[0] != "unstarted":
                 viols.append(viol("d-stream-scope-completes", f"not-completed/{mode[0]}/{placement}", True, False, scope=name))
